@@ -382,7 +382,7 @@ func (x *Exec) specEqual(ctx *SpecCtx, l, r Value, e *Expr) *Term {
 		if !ok {
 			specFail("type mismatch in %s", e.String())
 		}
-		return b.And(b.Eq(lv.Obj, rv.Obj), b.Eq(lv.Off, rv.Off), b.Eq(lv.Len, rv.Len))
+		return b.And(b.Eq(lv.Obj, rv.Obj), b.Eq(lv.Off, rv.Off), b.Eq(lv.Len, rv.Len), b.Eq(lv.Cap, rv.Cap))
 	case ArrayV:
 		rv, ok := r.(ArrayV)
 		if ok && lv.Arr != nil && rv.Arr != nil {
@@ -641,7 +641,7 @@ func (x *Exec) evalCall(ctx *SpecCtx, e *Expr) Value {
 		if !ok1 || !ok2 {
 			specFail("sameslice() needs slices in %s", e.String())
 		}
-		return b.And(b.Eq(l.Obj, r.Obj), b.Eq(l.Off, r.Off), b.Eq(l.Len, r.Len))
+		return b.And(b.Eq(l.Obj, r.Obj), b.Eq(l.Off, r.Off), b.Eq(l.Len, r.Len), b.Eq(l.Cap, r.Cap))
 	case "typeis":
 		need(2)
 		iv, ok := arg(0).(IfaceV)
